@@ -8,51 +8,112 @@
 //!
 //! The wrapped service is the strict scripted service (`inner_call c k tag=… ready=0|1`: `ready=0` = called on an
 //! instance that had not been polled ready). `manual busy ms=<n>`: the wrapped service (every instance, fresh clones
-//! too) answers `Pending` to `poll_ready` until n ms from now (a saturated backend; `ms=0` ends it); a caller that
-//! arrives meanwhile finds `poll_ready` pending and gives up (`result c notready`). `manual dropsvc`: the service
-//! handle (the only one the adapter holds; the layer is gone after construction) is dropped, call futures live on.
+//! too) answers `Pending` to `poll_ready` until n ticks from now (a saturated backend; `ms=0` ends it); a caller that
+//! arrives meanwhile finds `poll_ready` pending and gives up (`result c notready`). `manual ready script=pe…`: the
+//! next `poll_ready` calls of the wrapped service (when it is not busy) answer pending / error / ready; an error
+//! comes back from `RateLimiter::poll_ready`, is logged `ready_err c <error>` and the caller gives up as well.
+//! `manual dropsvc`: every service, kept handle and the layer are dropped, call futures live on.
+//!
+//! Construction (case header): `via=per_second n=<n>` / `via=per_minute n=<n>` / `via=burst rate=<r> burst=<b>` build
+//! through the preset constructors, `via=default` through `RateLimiterConfigBuilder::default()`; `limit= period=
+//! timeout= kind=` given with `via=` are builder methods called after it. Without `via`: the plain builder with every
+//! field set (absent keys: limit 1, period 1000, timeout 0, fixed). `name=<s>`: `.name(s)`. `listen=1`: the three
+//! listeners are registered (`#ev …` meta lines). `tick=us`: durations of the header and of `adv` are microseconds.
+//!
+//! Services and handles (`arrive c svc=<k> h=<j> lclone=1`): service 0 is built from the layer together with it;
+//! service k is built from the SAME layer value when first used (`lclone=1`: from a clone of the layer taken at that
+//! moment). Without `h=` the caller uses a fresh clone of the service (dropped after `call`); `h=0` calls the
+//! service value itself, again and again; `h=j` a kept clone, taken when first used (so possibly after calls have
+//! been made) and reused afterwards. A handle whose `poll_ready` was not ready is given up (dropped / replaced).
 use crate::world::*;
+use std::collections::BTreeMap;
 use std::future::Future;
 use std::pin::Pin;
 use std::sync::atomic::{AtomicBool, Ordering};
 use std::sync::{Arc, Mutex};
 use std::task::{Context, Poll, Wake, Waker};
-use std::time::Duration;
 use tower::{Layer, Service};
-use tower_resilience_ratelimiter::{RateLimiter, RateLimiterLayer, RateLimiterServiceError, WindowType};
+use tower_resilience_ratelimiter::{RateLimiter, RateLimiterConfigBuilder, RateLimiterLayer, RateLimiterServiceError, WindowType};
+
+struct Svc {
+    root: RateLimiter<Inner>,
+    kept: BTreeMap<u64, RateLimiter<Inner>>,
+}
 
 pub struct Adapter {
     /// `None` after `manual dropsvc`
-    svc: Option<RateLimiter<Inner>>,
+    layer: Option<RateLimiterLayer>,
+    svcs: BTreeMap<u64, Svc>,
+    /// the wrapped service every rate limiter service gets a clone of (`None` after `manual dropsvc`)
+    wrapped: Option<Inner>,
     /// readiness state of the wrapped service (not a handle of the rate limiter)
     inner: Arc<Mutex<InnerShared>>,
+    /// what the registered listeners were told since the last poll (`listen=1`)
+    events: Arc<Mutex<Vec<String>>>,
 }
 
 impl Adapter {
     pub fn new(kv: &Kv) -> Adapter {
-        let wt = match kv.str("kind", "fixed").as_str() {
+        let kind = |s: &str| match s {
             "log" => WindowType::SlidingLog,
             "counter" => WindowType::SlidingCounter,
             _ => WindowType::Fixed,
         };
-        let layer = RateLimiterLayer::builder()
-            .limit_for_period(kv.u64("limit", 1) as usize)
-            .refresh_period(Duration::from_millis(kv.u64("period", 1000)))
-            .timeout_duration(Duration::from_millis(kv.u64("timeout", 0)))
-            .window_type(wt)
-            .build();
-        // the limiter (period_start / bucket_start = now) is created here, at t = 0 of the case
-        let inner = Inner::strict("");
-        let shared = inner.shared.clone();
-        Adapter { svc: Some(layer.layer(inner)), inner: shared }
+        let n = kv.u64("n", 1) as usize;
+        let (mut b, preset) = match kv.str("via", "builder").as_str() {
+            "per_second" => (RateLimiterLayer::per_second(n), true),
+            "per_minute" => (RateLimiterLayer::per_minute(n), true),
+            "burst" => (RateLimiterLayer::burst(kv.u64("rate", 1) as usize, kv.u64("burst", 0) as usize), true),
+            "default" => (RateLimiterConfigBuilder::default(), true),
+            _ => (RateLimiterLayer::builder(), false),
+        };
+        // builder methods after the preset: only the fields the header names; plain builder: every field
+        if let Some(l) = kv.opt_u64("limit").or(if preset { None } else { Some(1) }) {
+            b = b.limit_for_period(l as usize);
+        }
+        if let Some(p) = kv.opt_u64("period").or(if preset { None } else { Some(1000) }) {
+            b = b.refresh_period(ticks(p));
+        }
+        if let Some(t) = kv.opt_u64("timeout").or(if preset { None } else { Some(0) }) {
+            b = b.timeout_duration(ticks(t));
+        }
+        if let Some(k) = kv.get("kind").or(if preset { None } else { Some("fixed") }) {
+            b = b.window_type(kind(k));
+        }
+        if let Some(name) = kv.get("name") {
+            b = b.name(name);
+        }
+        let events: Arc<Mutex<Vec<String>>> = Arc::new(Mutex::new(Vec::new()));
+        if kv.u64("listen", 0) == 1 {
+            let (e1, e2, e3) = (events.clone(), events.clone(), events.clone());
+            b = b
+                .on_permit_acquired(move |d| e1.lock().unwrap().push(format!("#ev acquired {}", d.as_nanos())))
+                .on_permit_rejected(move |d| e2.lock().unwrap().push(format!("#ev rejected {}", d.as_nanos())))
+                .on_permits_refreshed(move |n| e3.lock().unwrap().push(format!("#ev refreshed {}", n)));
+        }
+        let layer = b.build();
+        // the limiter of service 0 (period_start / bucket_start = now) is created here, at t = 0 of the case
+        let wrapped = Inner::strict("");
+        let shared = wrapped.shared.clone();
+        let mut svcs = BTreeMap::new();
+        svcs.insert(0, Svc { root: layer.layer(wrapped.clone()), kept: BTreeMap::new() });
+        Adapter { layer: Some(layer), svcs, wrapped: Some(wrapped), inner: shared, events }
     }
 }
 
 pub fn render(r: Result<Resp, RateLimiterServiceError<IErr>>) -> String {
     match r {
         Ok(x) => format!("ok:{}", x.v),
-        Err(RateLimiterServiceError::Inner(e)) => format!("err:inner{}:{}", e.kind, e.v),
-        Err(RateLimiterServiceError::RateLimited) => "err:ratelimited".into(),
+        Err(e) => {
+            // the error as a caller sees it through the accessor methods, cross-checked against the variant
+            let variant_limited = matches!(e, RateLimiterServiceError::RateLimited);
+            let (limited, inner) = (e.is_rate_limited(), e.is_inner());
+            match (variant_limited, limited, inner, e.into_inner()) {
+                (true, true, false, None) => "err:ratelimited".into(),
+                (false, false, true, Some(ie)) => format!("err:inner{}:{}", ie.kind, ie.v),
+                _ => format!("err:accessors-disagree:{}:{}:{}", variant_limited as u8, limited as u8, inner as u8),
+            }
+        }
     }
 }
 
@@ -75,6 +136,7 @@ struct Observed<F> {
     fut: Pin<Box<F>>,
     relay: Option<Arc<Relay>>,
     polled: bool,
+    events: Arc<Mutex<Vec<String>>>,
 }
 impl<F: Future<Output = String>> Future for Observed<F> {
     type Output = String;
@@ -105,6 +167,10 @@ impl<F: Future<Output = String>> Future for Observed<F> {
                 Poll::Pending => obs("rej", 0),
             }
         }
+        // what the listeners were told during this poll (meta lines, not compared)
+        for l in std::mem::take(&mut *self.events.lock().unwrap_or_else(|e| e.into_inner())) {
+            log_raw(l);
+        }
         r
     }
 }
@@ -113,31 +179,72 @@ impl Mw for Adapter {
     fn manual(&mut self, what: &str, kv: &Kv) {
         match what {
             "dropsvc" => {
-                self.svc = None;
+                self.svcs.clear();
+                self.layer = None;
+                self.wrapped = None;
             }
             "busy" => {
-                let until = tokio::time::Instant::now() + Duration::from_millis(kv.u64("ms", 0));
+                let until = tokio::time::Instant::now() + ticks(kv.u64("ms", 0));
                 self.inner.lock().unwrap().busy_until = Some(until);
+            }
+            "ready" => {
+                let script = kv.str("script", "");
+                self.inner.lock().unwrap().ready_script.extend(script.chars());
             }
             _ => {}
         }
     }
     fn arrive(&mut self, c: usize, kv: &Kv) -> Option<CallFut> {
-        let Some(svc) = self.svc.as_ref() else {
+        let (Some(layer), Some(wrapped)) = (self.layer.as_ref(), self.wrapped.as_ref()) else {
             log_raw("noop".into());
             return None;
         };
-        let mut svc = svc.clone();
-        let req = Req::new(c, kv);
-        match poll_ready_once(&mut svc) {
-            std::task::Poll::Ready(Ok(())) => {}
-            _ => {
-                log(format!("result {} notready", c));
-                return None;
-            }
+        let k = kv.u64("svc", 0);
+        if !self.svcs.contains_key(&k) {
+            // another service from the same layer value (or from a clone of it taken now)
+            let root = if kv.u64("lclone", 0) == 1 { layer.clone().layer(wrapped.clone()) } else { layer.layer(wrapped.clone()) };
+            self.svcs.insert(k, Svc { root, kept: BTreeMap::new() });
         }
-        let fut = svc.call(req);
+        let Svc { root, kept } = self.svcs.get_mut(&k).unwrap();
+        let which = kv.opt_u64("h");
+        let mut temp;
+        let h: &mut RateLimiter<Inner> = match which {
+            None => {
+                temp = root.clone();
+                &mut temp
+            }
+            Some(0) => &mut *root,
+            Some(j) => kept.entry(j).or_insert_with(|| root.clone()),
+        };
+        let req = Req::new(c, kv);
+        let turned_away = match poll_ready_once(h) {
+            std::task::Poll::Ready(Ok(())) => false,
+            std::task::Poll::Ready(Err(e)) => {
+                match e {
+                    RateLimiterServiceError::Inner(e) => log(format!("ready_err {} inner{}:{}", c, e.kind, e.v)),
+                    RateLimiterServiceError::RateLimited => log(format!("ready_err {} ratelimited", c)),
+                }
+                true
+            }
+            std::task::Poll::Pending => true,
+        };
+        if turned_away {
+            log(format!("result {} notready", c));
+            // the caller gives up and with it the handle it was waiting on
+            match which {
+                None => {}
+                Some(0) => {
+                    let fresh = root.clone();
+                    *root = fresh;
+                }
+                Some(j) => {
+                    kept.remove(&j);
+                }
+            }
+            return None;
+        }
+        let fut = h.call(req);
         let inner = async move { render(fut.await) };
-        Some(Box::pin(Observed { fut: Box::pin(inner), relay: None, polled: false }))
+        Some(Box::pin(Observed { fut: Box::pin(inner), relay: None, polled: false, events: self.events.clone() }))
     }
 }
